@@ -283,11 +283,11 @@ fn run_xyb(ctx: &Ctx, roundtrip: bool) {
             process(&v, &k, false, None);
         }
     });
-    // one image of more than 2^20 pixels (thorough: more than 2^24, where pixel counts stop being exact in f32),
-    // judged at its first and last pixels and at random positions
-    if !ctx.flag("lite") {
-        let n: usize = if ctx.tier == crate::Tier::Thorough { 4129 * 4129 } else { (1 << 20) + 13 };
-        let mut rng = Rng::new(ctx.seed, 0xB16_C04);
+    // single images of more than 2^20 and more than 2^24 pixels (where pixel counts stop being exact in f32;
+    // thorough: also more than 2^25), judged at their first and last pixels and at random positions
+    let big_sizes: &[usize] = if ctx.flag("lite") { &[] } else if ctx.tier == crate::Tier::Thorough { &[(1 << 20) + 13, 4129 * 4129, (1 << 25) + 5] } else { &[(1 << 20) + 13, 4129 * 4129] };
+    for &n in big_sizes {
+        let mut rng = Rng::new(ctx.seed, 0xB16_C04 + n as u64);
         let big: Vec<[f32; 3]> = (0..n as u64).map(|i| gen_px(&mut rng, [2u64, 1, 6, 7, 4, 2, 7, 5][(i % 8) as usize], i).map(|c| if roundtrip { c.clamp(0.0, 1.0) } else { c.clamp(0.0, 4.0) })).collect();
         if let Ok(x) = xyb_of(big.clone(), n, 1) {
             let out: Vec<[f32; 3]> = if roundtrip { LinearRgb::from(x).into_data() } else { x.into_data() };
@@ -308,7 +308,7 @@ fn run_xyb(ctx: &Ctx, roundtrip: bool) {
                 w.upd(f64::NAN, ([0.0; 3], 0, 0.0, 0.0));
             }
             checked.fetch_add(8320, Relaxed);
-            ev::observe("big_image_pixels", n);
+            ev::observe(&format!("big_image_of_{n}_pixels_checked_positions"), 8320);
             let tol = if roundtrip { TOL_C05 } else { TOL_C04 };
             if !(w.err <= tol) {
                 if let Some((p, c, got, want)) = w.at {
@@ -417,13 +417,18 @@ fn c09_shape<T: Pixel>(cfg: YuvConfig, colors: &[[f32; 3]], worst: &mut Worst<C9
     // lay the colours out as blocks so that pixels are constant within each chroma block
     let bw = 1usize << ssx;
     let bh = 1usize << ssy;
+    // block -> colour: in order for the standard layout; scattered for the very wide ones, so that blocks 65,536
+    // (or one band of rows) apart never carry the same chroma
+    let scatter = rows.is_some();
+    let ncolors = colors.len();
+    let cidx = move |bi: usize| if scatter { (bi * 37 + 11 + bi / 1040) % ncolors } else { bi % ncolors };
     let rows = rows.unwrap_or(((colors.len() + cols - 1) / cols) | 1); // odd too: a 4:4:4 image then has an odd number of pixels
     let (w, h) = (cols * bw, rows * bh);
     let mut px = vec![[0f32; 3]; w * h];
     for y in 0..h {
         for x in 0..w {
             let bi = (y / bh) * cols + x / bw;
-            px[y * w + x] = colors[bi % colors.len()];
+            px[y * w + x] = colors[cidx(bi)];
         }
     }
     let case = |what: &str| {
@@ -511,7 +516,7 @@ fn c09_shape<T: Pixel>(cfg: YuvConfig, colors: &[[f32; 3]], worst: &mut Worst<C9
                 let b = u32::cast_from(back.data()[pl].p(xx, y));
                 let e = (a as f64 - b as f64).abs() / budget;
                 let bi = ((y << sy) / bh) * cols + (xx << sx) / bw;
-                worst.upd(e, C9At { cfg, u8s, rgb: colors[bi % colors.len()], plane: pl, a, b });
+                worst.upd(e, C9At { cfg, u8s, rgb: colors[cidx(bi)], plane: pl, a, b });
                 n += 1;
             }
         }
